@@ -96,6 +96,7 @@ PROP = dict(
     jobs=[
         # lazily initialised Edwards parameters: every point method cold vs warm, one fresh process per method (shared with C02)
         dict(name="coldstart-edwards", pkg="c02/uninit", run="^TestC02_ColdStart$", rapid=False),
+        dict(name="coldstart-hashes", pkg="c14", run="^TestC14_ColdStart$", rapid=False, weight=4),
         # -race suite (asm build): shared-object concurrency under the race detector
         dict(name="race", pkg="c18", run="^TestC18_Concurrent$", race=True, shards=_race_curve_shards, env=RACE_ENV,
              checks=(80, 1500), timeout=(1800, 5400), weight=9),
